@@ -205,6 +205,7 @@ class GenCM:
     def run(self, body):
         it, f = self.interp, self.func
         env = Env(f.module, parent=f.closure or None, cls=f.cls)
+        env.vars['$qualname'] = f.qualname        # for the __qualname__ of classes defined in this body
         it.bind_args(f, f.node.args, self.args, self.kwargs, env)
         env.vars['$cm_body'] = body
         env.vars['$cm_yielded'] = [0]
@@ -731,6 +732,7 @@ class Interp:
             raise Unsupported('call depth > 200')
         node = f.node
         env = Env(f.module, parent=f.closure or None, cls=f.cls)
+        env.vars['$qualname'] = f.qualname        # for the __qualname__ of classes defined in this body
         self.bind_args(f, node.args, args, kwargs, env)
         if f.cls is not None and args:
             env.self_obj = args[0]
@@ -910,6 +912,11 @@ class Interp:
     def st_ClassDef(self, st, env):
         ci = self.make_class(st, env.module, env=env, qual=f'<local>.{st.name}.{id(env)}')
         ci.name = st.name
+        try:
+            outer = env.lookup('$qualname')
+            ci.qualname = f'{outer}.<locals>.{st.name}'       # as CPython: every class a factory makes has the same qualified name
+        except KeyError:
+            ci.qualname = st.name
         self.assign_name(st.name, ci, env)
 
     def st_Assert(self, st, env):
